@@ -103,7 +103,7 @@ int scen_opml(cmd_t * c) {
 	char * copy = malloc(sb->n + 1); memcpy(copy, sb->s, sb->n + 1);
 	DString * ds = NULL, * res = NULL; mmd_engine * e = NULL;
 	char fam = a[0].s[0];
-	if (fam != 's') ds = d_string_new(copy);
+	if (fam != 's') { ds = d_string_new(""); d_string_append_c_array(ds, sb->s, sb->n); }          /* (binary-safe: an ITMZ source is a ZIP archive) */
 	if (fam == 'e') e = mmd_engine_create_with_dstring(ds, 0);
 	if (fam == 's') res = itmz ? mmd_string_convert_itmz_to_text(copy) : mmd_string_convert_opml_to_text(copy);
 	else if (fam == 'd') res = itmz ? mmd_d_string_convert_itmz_to_text(ds) : mmd_d_string_convert_opml_to_text(ds);
